@@ -684,6 +684,13 @@ func (m *Machine) doRecover(caller *frame) Value {
 func (m *Machine) typeAssert(instr *ssa.TypeAssert, itf Iface) Value {
 	var v Value
 	err := ""
+	if itf.T == nil && m.W.havocType(instr.AssertedType) {
+		// nil stands for "some value" of a havoc'd package's interface type (metrics, loggers)
+		if instr.CommaOk {
+			return Tuple{Iface{}, m.F.True()}
+		}
+		return Iface{}
+	}
 	if itf.T == nil {
 		err = fmt.Sprintf("interface conversion: interface is nil, not %s", instr.AssertedType)
 	} else if idst, ok := instr.AssertedType.Underlying().(*types.Interface); ok {
